@@ -597,8 +597,6 @@ func (e *Evaluator) evalBinaryExpr(expr *ExprBinary) (*Cell, error) {
 			memberVal.ParentObj = &left.Value
 			return NewCell(memberVal), nil
 		}
-		member.Value.Binding = &left.Value
-
 		return member, nil
 	case LessThan, GreaterThan, EqualEqual, LessEqual, GreaterEqual, BangEqual:
 		if left.Value.Tag == ValueUnknown || right.Value.Tag == ValueUnknown {
